@@ -124,12 +124,12 @@ def gen_families(ctx):
     # the F16 witness and the other corpus programs of the fragment first
     for p, goals in pg.corpus():
         fams.append(Fam(p, goals, [pg.goal_text(g) for g in goals], "corpus"))
-    for _ in range(ctx.n(16, 220)):
+    for _ in range(ctx.n(12, 220)):
         p = pg.gen_program(rng)
         gg = pg.GoalGen(rng, p)
         goals = [g for g in gg.goals(ctx.n(2, 3), ctx.n(2, 3), ctx.n(5, 6)) if not pg.is_floundering_prone(g)]
         fams.append(Fam(p, goals, [pg.goal_text(g) for g in goals], "fragment:" + p.shape))
-    for _ in range(ctx.n(6, 80)):
+    for _ in range(ctx.n(4, 80)):
         p = eg.gen_program(rng)
         gg = eg.IfGoalGen(rng, p)
         goals = [gg.if_goal() for _ in range(3)]
